@@ -337,3 +337,32 @@ Proof.
   apply spec_if_nil in H1, H2. split; [|apply Z.leb_le; exact H2].
   rewrite Forall_forall. rewrite forallb_forall in H1. intros c Hc. apply Z.leb_le. apply H1. exact Hc.
 Qed.
+
+(* what an empty issue list of the eligibility case says: the AllocateRewards calls of the end blocker are exactly the
+   tips of the tipped rounds, each to its own reporters, followed by one payout of the whole reward pool to the reporters
+   of the eligible rounds; and nobody outside the eligible rounds is among the recipients of that payout *)
+Lemma list_eqb_call_sound a b : list_eqb call_eqb a b = true -> List.length a = List.length b.
+Proof.
+  revert b. induction a as [|x t IH]; intros [|y u]; cbn [list_eqb List.length]; intros H; try reflexivity; try discriminate.
+  apply andb_prop in H. destruct H as [_ H]. f_equal. apply IH. exact H.
+Qed.
+
+Theorem elig_check_sound rounds R impl :
+  c09_check (EligCase rounds R impl) = [] ->
+  list_eqb call_eqb (elig_expected rounds R) impl = true /\
+  (forall c, In c impl -> fst (fst c) = 2 ->
+     snd (fst c) = R /\
+     forall id a q h, In (id, a, q, h) (snd c) -> In id (reporters_of_rounds (filter (fun r => fst (fst r)) rounds))).
+Proof.
+  cbn [c09_check]. intros H.
+  apply app_nil_both in H. destruct H as [H1 H]. apply app_nil_both in H. destruct H as [_ H].
+  apply app_nil_both in H. destruct H as [H3 H]. apply app_nil_both in H. destruct H as [_ H].
+  apply diff_if_nil in H. apply spec_if_nil in H1, H3. split; [exact H|].
+  intros c Hc E2. rewrite forallb_forall in H1, H3.
+  assert (Hf : In c (filter (fun c0 => fst (fst c0) =? 2) impl)).
+  { apply filter_In. split; [exact Hc|]. rewrite E2. reflexivity. }
+  split.
+  - apply Z.eqb_eq. apply H3. exact Hf.
+  - intros id a q h Hin. specialize (H1 c Hf). rewrite forallb_forall in H1. specialize (H1 _ Hin). cbn in H1.
+    apply existsb_exists in H1. destruct H1 as (x & Hx & Ex). apply Z.eqb_eq in Ex. subst x. exact Hx.
+Qed.
